@@ -171,6 +171,17 @@ CHECKS = {
         'Python\'s comparison of two values is an oracle (C19 / C20 model parts of it). Null cells count as absent (fix 30fb0ca). Print Assumptions: closed under the global context.',
    technique='Coq compiler-correctness proof (induction over the AST, literal-tuple threading) + loop = filter/firstn lemma + source-text and row-selection correspondence + independent evaluator',
    design='DESIGN.md §3 C11'),
+ 'C12': dict(
+   text='Machine-checked proof (Coq) about the model of the filter compiler: the Python source handed to exec() is a function of the SHAPE of the filter and of its tag names only (two filters differing only in literal values generate the same source, character for character); '
+        'every tag name the parser model lets through is made of letters, digits and underscores; hence the source of ANY accepted filter is written over letters, digits, _ and \' [ ] ( ) , blank ! = < > - no double quote, backslash, dot, colon, semicolon, newline, #, @, braces; '
+        'names hold no quote; evaluation returns rows of the source grid. Literal values travel only in the tuple bound as the generated function\'s default argument. '
+        'Tied by the model\'s source vs the text the implementation really compiles (from the `compile` audit event) and by the alphabet of the theorem checked on every compiled source. '
+        'The search evaluates canary payloads in every literal and identifier position x enclosing shapes in a child process under sys.addaudithook.',
+   note='CPython executing the generated source (names resolve in hszinc.grid_filter\'s globals) and sys.addaudithook\'s coverage are trusted. The implementation\'s own compile / exec of its template, id(), the __defaults__ binding and pyparsing\'s traceback / frame inspection are the only events allowed; '
+        'hszinc.grid_filter gains one _gen_hsfilter_N global per compiled filter by design (not counted as visible state). A token float() / strptime() / iso8601 refuses surfaces as ValueError rather than ParseException (counted as rejection; 44 of 1804 quick cases). '
+        'The parser model covers the literal subset of C11; other literal kinds are covered by the audit search and the alphabet check only. Print Assumptions: closed under the global context.',
+   technique='Coq proof (shape-invariance of the code generator, identifier invariant through the parser combinators, alphabet of the renderer) + audit-hook search in a child process + source-text correspondence',
+   design='DESIGN.md §3 C12'),
 }
 PENDING = {}
 for i in range(1, 21):
